@@ -185,7 +185,9 @@ def sock_case(draw):
     # how "a consumer failed" comes about: a consumer whose consume() raises (in-memory), or RabbitMQ cancelling the
     # consumer server-side because its queue was deleted, so that the consumer's restart is refused
     return {"endpoint": endpoint, "steps": steps, "slow_stop": draw(st.booleans()),
-            "backend": draw(st.sampled_from(["mem", "mem", "amqp-queue-deleted"])), "idle_worker": draw(st.integers(0, 3)) == 0}
+            "backend": draw(st.sampled_from(["mem", "mem", "amqp-queue-deleted"])), "idle_worker": draw(st.integers(0, 3)) == 0,
+            # a client that connected to the health port and has not sent anything yet when the worker is told to stop
+            "idle_conn_at_stop": draw(st.booleans())}
 
 
 def free_port() -> int:
@@ -420,6 +422,12 @@ async def _sock(case: dict, out: Outcome):
                     await asyncio.wait_for(slow_started.wait(), timeout=5.0)
                 except asyncio.TimeoutError:
                     out.inconclusive = True
+            idle_rw = None
+            if case.get("idle_conn_at_stop"):
+                try:
+                    idle_rw = await asyncio.wait_for(asyncio.open_connection("127.0.0.1", port), 2.0)
+                except (OSError, asyncio.TimeoutError):
+                    idle_rw = None
             h._run()
             graceful_stop = True
             if case.get("slow_stop") and slow_started.is_set():
@@ -448,9 +456,20 @@ async def _sock(case: dict, out: Outcome):
         else:
             wt.cancel()
     try:
-        await asyncio.wait_for(asyncio.gather(wt, return_exceptions=True), timeout=15.0)
+        res = await asyncio.wait_for(asyncio.gather(wt, return_exceptions=True), timeout=15.0)
+        if res and isinstance(res[0], BaseException) and not isinstance(res[0], asyncio.CancelledError):
+            out.v("worker-died", f"Worker.run() raised {res[0]!r} while stopping (health server running, "
+                  f"idle client connection open: {bool(case.get('idle_conn_at_stop'))})")
+        elif case.get("slow_stop") and slow_started.is_set() and "slowjob" not in done_jobs and graceful_stop:
+            out.v("jobs-disturbed", "the actor that was running when the stop was requested did not complete within the graceful period "
+                  f"(idle client connection open: {bool(case.get('idle_conn_at_stop'))})")
     except asyncio.TimeoutError:
         out.v("worker-stuck", "worker did not stop")
+    try:
+        if idle_rw is not None:
+            idle_rw[1].close()
+    except (NameError, OSError):
+        pass
     if not graceful_stop and w.health_check_server is not None:
         await w.health_check_server.stop()
     await asyncio.sleep(0.05)
